@@ -8,7 +8,7 @@ COMMON_TRUSTED_BASE = [
 
 PROPS = {}
 NOT_CLAIMED = {}
-HOOK_COMMITS = ["7ec16b3d", "7b24226a"]
+HOOK_COMMITS = ["7ec16b3d", "7b24226a", "84b9c3d7"]
 
 PROPS["C14"] = dict(
     level="proof",
